@@ -106,6 +106,9 @@ func runStoreCase(o *emitter, u *Universe, ci, blocks, maxBig int) {
 				o.Count("store:del")
 			} else {
 				v := make([]byte, 1+r.Intn(40))
+				if r.Intn(8) == 0 {
+					v = make([]byte, 32) // digest-sized values
+				}
 				r.Read(v)
 				if e := w.Set(k.User, v); e != nil {
 					panic(e)
